@@ -5,7 +5,7 @@ from ..common import *
 from .. import proofgate, composer, protocol
 
 THEOREMS = ["C05_row_evaluator_exact", "C05_roots_all_zero", "C05_components_imply_combined",
-            "C05_combined_implies_components", "C05_grand_product_closes"]
+            "C05_combined_implies_components", "C05_grand_product_closes", "C05_vanishing_iff_divisible", "C05_degree_test"]
 
 def expected_outcome(snapA, snapB):
     """model-side verdict: (kind, detail). Rows are A's selectors evaluated on
@@ -163,7 +163,7 @@ def run(ck):
                          {"failing_input_found": True, "compiled_circuit": S.circuits[a], "instance": S.circuits[b]}, key="returned-bad-proof")
     return ck.finish(level="proof",
         rule="layouts: random gadget mixes, raw rows with random selector combinations (incl. 16-row full domains whose last row reads row 0), rows carrying a (zero / non-zero) public input with the arithmetic selector on or off, gadget ending at the domain end; instances: satisfying, one witness overridden, different wiring breaking a compiled copy constraint with every row satisfied, wrong size; verdict of the extracted row evaluator on (compiled selectors, instance wires) + copy-class check vs Prover::prove; every returned proof is verified",
-        assumptions=["detection of a non-divisible numerator by the degree test is exact for n >= 4 (argued in DESIGN.md section 1; not mechanised)",
+        assumptions=["the degree test is exact (C05_degree_test) given that the 8n coset points are distinct and off the domain (checked by the kernels tie of C19, not proved for every n) and that the numerator has fewer than 8n coefficients",
                      "challenges avoid the bounded bad sets of the separation theorem"],
         checker_cmd=proofgate.CHECKER_CMD, trusted_base=proofgate.TRUSTED)
 
